@@ -455,6 +455,20 @@ def rule_lin(ctx: Ctx) -> RuleReport:
     tb = [st for t, st in branches if t == "t"]
     if not tb:
         raise AnalysisError("C19-LIN: text branch vanished")
+    # the run's text reaches the symbol table unchanged: no call between `elem.text` and convert_greek_and_symbols
+    cvc = [c for st in tb[0].body for c in ast.walk(st) if isinstance(c, ast.Call) and (dotted(c.func) or "") == "convert_greek_and_symbols"]
+    if len(cvc) == 1 and cvc[0].args:
+        a = cvc[0].args[0]
+        hops = 0
+        while isinstance(a, ast.Name) and hops < 4:
+            defs = [n.value for st in tb[0].body for n in ast.walk(st) if isinstance(n, ast.Assign) and len(n.targets) == 1 and isinstance(n.targets[0], ast.Name) and n.targets[0].id == a.id]
+            if len(defs) != 1:
+                break
+            a, hops = defs[0], hops + 1
+        inner = [c for c in ast.walk(a) if isinstance(c, ast.Call)]
+        if inner:
+            rep.fail(Finding("C19-LIN", OMML, pe.qual, "m:t text through " + (dotted(inner[0].func) or norm(inner[0].func)), f"the text of a run passes through `{short(inner[0], 60)}` before it is looked up in the symbol table: characters of the formula are rewritten or dropped by something other than the documented symbol mapping", line=inner[0].lineno))
+            return rep
     r = compare(tb[0].body, "text = elem.text or ''\nconverted = convert_greek_and_symbols(text)\nif pending_sqrt_close and pending_sqrt_close[-1] in converted:\n    idx = converted.index(pending_sqrt_close[-1])\n    inside = converted[:idx]\n    outside = converted[idx + 1:]\n    pending_sqrt_close.pop()\n    return inside + '}' + outside\nreturn converted", params=["elem"])
     if r == "equal":
         rep.ok({"text_run": "converted text emitted once; malformed path replaces exactly the closing bracket by '}'"})
